@@ -8,3 +8,6 @@ mkdir -p "$here/.work"
 "$PY" "$here/harness/translate.py" --repo "${OFX_REPO:-/repo}"
 cd "$here/lean"
 lake build OfxModel driver OfxProofs
+# non-vacuity witness modules (class-specific examples; a failure here is a note in the evidence, not an error)
+W=$("$PY" -c "import json;d=json.load(open('proofs_index.json'));print(' '.join(sorted({m for e in d.values() for m in e.get('witness_modules', [])})))")
+[ -z "$W" ] || lake build $W || echo "note: a witness module does not build (see DESIGN.md 13.6)"
